@@ -5,7 +5,7 @@ puts under contract, the contract text, the back end, the domain and the propert
 class O:
     def __init__(self, id, props, harness=None, backend="kani", tier="quick", domain="bounded", bound="",
                  functions=(), contract="", timeout=600, stubs=(), assumes=(), verus_parts=(), verus_fns=(),
-                 rlimit=50):
+                 rlimit=50, artefacts_ok=False):
         self.id = id
         self.props = props
         self.backend = backend
@@ -21,6 +21,8 @@ class O:
         self.verus_parts = list(verus_parts)
         self.verus_fns = list(verus_fns)
         self.rlimit = rlimit
+        # the harness is known to show Kani allocator-model artefacts on the unchanged tree while its contract checks pass
+        self.artefacts_ok = artefacts_ok
 
 
 TRUSTED_BASE = [
